@@ -284,6 +284,8 @@ def gen_spec(rng, fmt, tabs, cls_hint=None):
             angs, kds = [0, 1], ["c", "c"]
         else:
             angs = [rng.choice([0, 1, 2]) for _ in range(rng.choice([2, 3]))]
+            if rng.random() < 0.4:
+                angs = [1, 0]  # the two contractions of an SP shell stored P first: not an SP shell for any writer
             kds = ["c" if (a < 2 or not PURE_OK[fmt]) else kinds_for_l.setdefault(a, rng.choice("cp")) for a in angs]
         coeffs = [[round(rng.uniform(0.2, 1.0) * rng.choice([1, -1]), 5) for _ in angs] for _ in exps]
         shells.append([rng.randrange(natom), angs, kds, exps, coeffs])
@@ -1576,7 +1578,7 @@ def gen_tracer(rng, fmt, tabs):
         # generalized contractions: SP shells (kept by the FCHK writer), rarely another one (refused)
         gshells = [(c, [(l, k)], [(e, [d]) for e, d in pr]) for c, l, k, pr in shells]
         for _ in range(rng.choice([1, 1, 2])):
-            cons = [(0, "c"), (1, "c")] if rng.random() < 0.85 else rng.choice([[(1, "c"), (2, "c")], [(0, "c"), (0, "c")], [(0, "c"), (1, "c"), (2, "p")]])
+            cons = [(0, "c"), (1, "c")] if rng.random() < 0.85 else rng.choice([[(1, "c"), (2, "c")], [(0, "c"), (0, "c")], [(0, "c"), (1, "c"), (2, "p")], [(1, "c"), (0, "c")], [(1, "c"), (0, "c")]])
             pr = [(e, [_rand_d(rng) for _ in cons]) for e in rng.sample(range(len(EXPS)), rng.choice([1, 2, 3]))]
             gshells.insert(rng.randrange(len(gshells) + 1), (rng.randrange(natom), cons, pr))
         if order == "sorted":
